@@ -4,6 +4,7 @@ from props.common import (
     aggregates,
     arg_syms,
     atomic_ops,
+    cas_flow,
     crate_stats,
     drop_blocks_of,
     need,
@@ -32,43 +33,6 @@ def cint(s):
 
 def _mentions_static(s, path):
     return any(isinstance(x, tuple) and len(x) >= 3 and x[0] == "const" and x[2] == path for x in sym_walk(s))
-
-
-def cas_flow(fn, cas_call):
-    """P = "the compare_exchange of this call succeeded" propagated over fn's body (helpers spliced in)."""
-    bb = cas_call.bb
-
-    def is_cas(s):
-        s = strip_sym(s)
-        if not (isinstance(s, tuple) and s and s[0] == "call"):
-            return False
-        return any(isinstance(n, str) and path_is(n, "compare_exchange") for n in (s[1], s[3]))
-
-    def csw(subj, variant):
-        if is_cas(subj):
-            return {"Ok": "P", "Err": "N"}.get(variant)
-        return None
-
-    def cbool(s):
-        s = strip_sym(s)
-        if not (isinstance(s, tuple) and s and s[0] == "call" and isinstance(s[1], str)):
-            return None
-        a0 = strip_sym(s[2][0]) if s[2] else None
-        if a0 is None or not is_cas(a0):
-            return None
-        if path_is(s[1], "Result<T, E>::is_ok"):
-            return ("P", "N")
-        if path_is(s[1], "Result<T, E>::is_err"):
-            return ("N", "P")
-        other = strip_sym(s[2][1]) if len(s[2]) > 1 else None
-        is_ok_lit = other is not None and other[0] == "agg" and other[2] == "Ok"
-        if is_ok_lit and (path_is(s[1], "PartialEq::eq") or s[1].endswith("::eq")):
-            return ("P", "T")
-        if is_ok_lit and (path_is(s[1], "PartialEq::ne") or s[1].endswith("::ne")):
-            return ("T", "P")
-        return None
-
-    return PredFlow(fn, csw, cbool)
 
 
 def run(ctx):
